@@ -174,9 +174,9 @@ class ActivityStream(object):
         Args:
             activity_item: new item to append to the stream
         """
-        if len(self.data) > self.maximum_size:
-            self.data.pop()
         self.data.append(activity_item)
+        while len(self.data) > self.maximum_size:
+            self.data.pop(0)
 
     def clear(self) -> None:
         """Delete all activities from the stream."""
